@@ -207,6 +207,13 @@ for _p in ("C20", "C05"):
 _add("C14", S+"isFileReady", ["predecessor-name-never-reaches-the-file-system"])
 _add("C02", B+"startRetry", ["gone-files-only", "changed-not-resent"])
 
+# round 4: seeds that only the check of another property reported
+_add("C02", S+"partReceived", ["same-version-only", "known-file-answers-yes", "yes-needs-record-or-known-file"])
+_add("C04", "(*queue.sortedFile).getPrevName")
+_add("C06", S+"Recover", ["recovered-wait-bodies-are-validated", "no-direct-finalize", "no-direct-delivery"])
+_add("C09", S+"cleanStrays")
+_add("C20", S+"initStageFile")
+
 os.makedirs(os.path.join(V, "props"), exist_ok=True)
 for pid, p in P.items():
     json.dump(p, open(os.path.join(V, "props", pid + ".json"), "w"), indent=1)
